@@ -322,7 +322,7 @@ func checkCoercionErrors(r *Run, prog *Program, a *Anchors, pfx string) {
 							}
 						}
 						if ev.Callee == a.EqTable {
-							if eq, known := evalEq(sm.St, ev.Res, nilSym()); known && eq {
+							if eq, known := evalEq(sm.St, a.comparatorOf(ev.Res), nilSym()); known && eq {
 								justified = true
 							}
 						}
@@ -336,7 +336,7 @@ func checkCoercionErrors(r *Run, prog *Program, a *Anchors, pfx string) {
 				if ev.Instr == nil || ev.Callee != a.EqTable || ev.Res == nil {
 					continue
 				}
-				if eq, known := evalEq(sm.St, ev.Res, nilSym()); known && eq {
+				if eq, known := evalEq(sm.St, a.comparatorOf(ev.Res), nilSym()); known && eq {
 					ec := errClass(sm, sm.Results[1])
 					r.Check(pfx+".non-scalar-error", m.Name()+":no-comparator", prog.pos(sm.Ret.Pos()), ec == "nonnil", "no comparator exists for the value's kind but the matcher does not return an error")
 				}
